@@ -67,6 +67,33 @@ mut("c02-paging-len-check-removed", ["C02"], "control.go",
 mut("c02-behera-warning-child-check-removed", ["C02"], "control.go",
     "if len(child.Children) == 0 {\n\t\t\t\t\treturn nil, fmt.Errorf(\"%s: behera warning must have a child: %w\", op, ErrInvalidParameter)\n\t\t\t\t}\n", "")
 
+# ---- C03 -------------------------------------------------------------------
+mut("c03-reversed-scan", ["C03"], "mux.go",
+    "for _, r := range m.routes {\n\t\tif !r.match(req) {",
+    "for i := len(m.routes) - 1; i >= 0; i-- {\n\t\tr := m.routes[i]\n\t\tif !r.match(req) {")
+mut("c03-no-return-after-match", ["C03"], "mux.go",
+    "\t\th(w, req)\n\t\treturn\n\t}\n\tif m.defaultRoute != nil {", "\t\th(w, req)\n\t}\n\tif m.defaultRoute != nil {")
+mut("c03-default-consulted-first-for-delete", ["C03"], "mux.go",
+    "\t// find the first matching route to dispatch the request to and then return\n",
+    "\tif m.defaultRoute != nil && req.routeOp == deleteRouteOperation {\n\t\tm.defaultRoute.handler()(w, req)\n\t\treturn\n\t}\n")
+mut("c03-basedn-case-sensitive", ["C03"], "route.go",
+    "if r.basedn != \"\" && !strings.EqualFold(searchMsg.BaseDN, r.basedn) {", "if r.basedn != \"\" && searchMsg.BaseDN != r.basedn {")
+mut("c03-filter-case-sensitive", ["C03"], "route.go",
+    "if r.filter != \"\" && !strings.EqualFold(searchMsg.Filter, r.filter) {", "if r.filter != \"\" && searchMsg.Filter != r.filter {")
+mut("c03-scope-compared-when-zero", ["C03"], "route.go",
+    "if r.scope != 0 && searchMsg.Scope != r.scope {", "if searchMsg.Scope != r.scope {")
+mut("c03-refusal-msgid-from-counter", ["C03"], "mux.go",
+    "\t_ = w.Write(resp)\n}\n\n// responseApplicationCode", "\tresp.messageID = int64(req.ID)\n\t_ = w.Write(resp)\n}\n\n// responseApplicationCode")
+mut("c03-refusal-dropped-for-search", ["C03"], "mux.go",
+    "\t_ = w.Write(resp)\n}\n\n// responseApplicationCode", "\tif req.routeOp != searchRouteOperation {\n\t\t_ = w.Write(resp)\n\t}\n}\n\n// responseApplicationCode")
+mut("c03-refusal-always-extended", ["C03"], "mux.go",
+    "\t\tWithApplicationCode(responseApplicationCode(req.routeOp)),\n", "")
+mut("c03-extended-prefix-match", ["C03"], "route.go",
+    "if r.extendedName != req.extendedName {", "if !strings.HasPrefix(string(req.extendedName), string(r.extendedName)) {")
+mut("c03-second-search-route-shadowed", ["C03"], "mux.go",
+    "\tfor _, r := range m.routes {\n\t\tif !r.match(req) {\n\t\t\tcontinue\n\t\t}",
+    "\tfor i, r := range m.routes {\n\t\tif !r.match(req) || (i == 1 && r.op() == searchRouteOperation && len(m.routes) > 2) {\n\t\t\tcontinue\n\t\t}")
+
 # ---- C04 -------------------------------------------------------------------
 mut("c04-msgid-from-request-counter", ["C04"], "request.go",
     "resp := &SearchResponseDone{\n\t\tbaseResponse: &baseResponse{\n\t\t\tmessageID: r.message.GetID(),",
